@@ -233,6 +233,10 @@ def check_handoff(ctx, func, path, need_mcfg_bound=True):
             rep.unrec("R2-handoff", construct, str(ex))
             continue
         ok = True
+        hidden = [st_ for st_ in stars if not isinstance(st_, ast.Name)]
+        if hidden and any(kws.get(k) is None for k in STATE + ["t_cur", "t_max"]):
+            rep.unrec("R2-handoff", construct, "%s() receives keywords through **%s: which state it is handed is not visible at the call" % (e.name, dump(hidden[0])[:40]))
+            continue
         for k in STATE + ["t_cur", "t_max"]:
             v = kws.get(k)
             if v is None:
@@ -490,6 +494,13 @@ def run(prog, rep, tier):
                     else:
                         rep.violate("R3-reset", rst.qualname, "clock reset to %s" % dump(v), where(rst, st), "t_cur = 0", dump(v))
                         clock0 = None
+        dynamic = [n for n in ast.walk(rst.node) if isinstance(n, ast.Call) and ((isinstance(n.func, ast.Name) and n.func.id in ("setattr", "exec")) or
+                                                                            (isinstance(n.func, ast.Attribute) and dump(n.func.value) == "self" and n.func.attr.startswith("_")))]
+        for f in STATE:
+            if f not in done and dynamic:
+                rep.unrec("R3-reset", rst.qualname, "working container %s is not restored by a visible assignment, and reset() stores attributes dynamically / through a helper (%s)"
+                          % (f, dump(dynamic[0])[:40]))
+                done[f] = None
         for f in STATE:
             if f not in done:
                 rep.violate("R3-reset", rst.qualname, "working container %s is not restored on a path through reset()" % f,
